@@ -7,6 +7,8 @@ import TdVerif.Model.C13Module
 import TdVerif.Lemmas.C13
 import TdVerif.Model.C13Params
 import TdVerif.Lemmas.C13Params
+import TdVerif.Model.C13Inplace
+import TdVerif.Lemmas.C13Inplace
 
 namespace TdVerif.Props.C13
 open TdVerif.C13
@@ -315,5 +317,67 @@ Parameters) registers one entry for two leaves — the reason for the distinct-n
 theorem reset_params_collision_counterexample :
     (resetParams [(["a.b"], ⟨1, true⟩), (["a", "b"], ⟨2, true⟩)]).1 = [("a.b", ⟨2, true⟩)] := by
   simp [resetParams, flatName, Dict.set]
+
+
+/-! ## `inplace=True`: values -/
+open TdVerif.C13.Inplace in
+/-- **inplace_restores_values** — `with params.to_module(module, inplace=True): …` when the visited
+cells hold pairwise distinct tensor objects (no tensor tied under two visited names): after the exit
+every tensor object that existed before the block has its value back (the module keeps its objects —
+the registry is not touched — and the supplied tensors are unchanged too). -/
+theorem inplace_restores_values (s : VS) (ws : List (Tn × Tn)) (hnd : (ws.map (·.1.id)).Nodup)
+    (hlt : ∀ w ∈ ws, w.1.id < s.next ∧ w.2.id < s.next) :
+    ∀ x, x < s.next → (roundTrip s ws).vals x = s.vals x := by
+  intro x hx
+  unfold roundTrip
+  simp only
+  have hlen : (inplaceAll s ws).2.length = (ws.map (·.1)).length := by simp [inplaceAll_length]
+  have hmap1 : ((ws.map (·.1)).zip (inplaceAll s ws).2).map (·.1) = ws.map (·.1) := by
+    rw [List.map_fst_zip]; omega
+  have hids : (((ws.map (·.1)).zip (inplaceAll s ws).2).map (·.1.id)) = ws.map (·.1.id) := by
+    have : (((ws.map (·.1)).zip (inplaceAll s ws).2).map (·.1.id))
+        = (((ws.map (·.1)).zip (inplaceAll s ws).2).map (·.1)).map (·.id) := by simp
+    rw [this, hmap1]; simp
+  -- second pass: the clones are written back
+  have hpass2 := inplaceAll_vals ((ws.map (·.1)).zip (inplaceAll s ws).2) (inplaceAll s ws).1
+    (by rw [hids]; exact hnd)
+    (by
+      intro w hw
+      obtain ⟨h1, h2⟩ := List.of_mem_zip hw
+      obtain ⟨w0, hw0, he⟩ := List.mem_map.1 h1
+      have := (hlt w0 hw0).1
+      have hc := inplaceAll_clones_fresh ws s w.2 h2
+      rw [inplaceAll_next] at hc ⊢
+      rw [← he]; omega)
+    (by
+      intro w hw w' hw'
+      have hc := (inplaceAll_clones_fresh ws s w.2 (List.of_mem_zip hw).2).1
+      obtain ⟨w0, hw0, he⟩ := List.mem_map.1 (List.of_mem_zip hw').1
+      have := (hlt w0 hw0).1
+      rw [← he]; omega)
+  by_cases hin : x ∈ ws.map (·.1.id)
+  · -- a written object: it gets the value of its clone, which is its original value
+    have : ∃ p ∈ (ws.map (·.1)).zip (inplaceAll s ws).2, p.1.id = x := by
+      rw [← hids] at hin
+      obtain ⟨p, hp, he⟩ := List.mem_map.1 hin
+      exact ⟨p, hp, he⟩
+    obtain ⟨p, hp, he⟩ := this
+    rw [← he, hpass2.1 p hp, inplaceAll_clone_vals ws s hnd (fun w hw => (hlt w hw).1) p hp]
+  · rw [hpass2.2 x (by rw [inplaceAll_next]; omega) (by rw [hids]; exact hin)]
+    exact inplaceAll_untouched ws s x hx (fun w hw e => hin (List.mem_map.2 ⟨w, hw, e⟩))
+
+
+open TdVerif.C13.Inplace in
+/-- **inplace_tied_counterexample** — one tensor object (id 1, value 100) visited under two names, supplied
+values 7 and 8: after the block it holds 7, not 100 (the second clone was taken from the already overwritten
+tensor, and the exit replays the clones in the same order). The recorded finding `C13-inplace-tied-values`. -/
+theorem inplace_tied_counterexample :
+    (roundTrip ⟨fun i => if i = 1 then 100 else if i = 2 then 7 else if i = 3 then 8 else 0, 4⟩
+      [(⟨1, true⟩, ⟨2, false⟩), (⟨1, true⟩, ⟨3, false⟩)]).vals 1 = 7 := by
+  simp [roundTrip, inplaceAll, inplaceWrite]
+
+open TdVerif.C13.Inplace in
+example : (roundTrip ⟨fun i => if i = 1 then 100 else if i = 2 then 7 else 0, 3⟩ [(⟨1, true⟩, ⟨2, false⟩)]).vals 1 = 100 := by
+  simp [roundTrip, inplaceAll, inplaceWrite]
 
 end TdVerif.Props.C13
